@@ -77,7 +77,7 @@ def run(ck):
     ck.mc("MC_Ed25519", "MC_Ed25519_29.cfg", note="order-40 curve, l'=5: all key encodings x challenges x S bytes; honest signatures", workers=8)
     if not quick:
         ck.mc("MC_Ed25519", "MC_Ed25519_101.cfg", note="order-88 curve, l'=11", workers=8, timeout=3000)
-    specs = [("s64", True), ("v2", True)] if quick else [(b, True) for b in ALL_BACKENDS] + [("s64", False), ("v2", False)]
+    specs = [("s64", True), ("s32", True), ("v2", True)] if quick else [(b, True) for b in ALL_BACKENDS] + [("s64", False), ("v2", False)]
     bins = build_many([(b, t, "release", ()) for b, t in specs], jobs=3)
     ops = gen(ck.rng, quick)
     sp = os.path.join(ck.workdir, "script.ndjson")
